@@ -145,3 +145,10 @@ package errutil
 //@   ensures result == asSpec(err, elemT(typeof(target)), target)
 //@   loop 1: invariant asSpec(err, elemT(typeof(target)), target) == asSpec(c, elemT(typeof(target)), target)
 //@   loop 2: invariant forall j int :: 0 <= j && j < $n ==> !asSpec(causes(c)[j], elemT(typeof(target)), target)
+
+// ---- the special-case printer (C03): what it prints as safe ----
+//@ func specialCaseFormat
+//@   props C03
+//@   requires err != nil && p != nil
+//@   requires isLeaf ==> cause1(err) == nil && len(causes(err)) == 0
+//@   uses isany_leaf_text
